@@ -173,6 +173,7 @@ pub fn run(ctx: &Ctx) -> i32 {
     Runs(u8, u64),
     Seq(usize, usize),
     Small(u8),
+    Bulk(u8, u64),
   }
   let mut jobs: Vec<Job> = (0..njobs_hist).map(Job::Hist).collect();
   let run_depths: Vec<u8> = if quick { vec![3] } else { vec![3, 4, 6] };
@@ -183,6 +184,10 @@ pub fn run(ctx: &Ctx) -> i32 {
   }
   for d in [0u8, 1, 29] {
     jobs.push(Job::Small(d));
+  }
+  // many buffered pushes: thousands of cells with clusters, long aligned runs and duplicates
+  for &(d, salt) in if quick { &[(6u8, 1u64), (9, 2)][..] } else { &[(6u8, 1u64), (9, 2), (12, 3), (18, 4), (29, 5)][..] } {
+    jobs.push(Job::Bulk(d, salt));
   }
   let seq_universe = universe(&UniverseSpec { name: "seq", dmax: 2, chain: Chain::First, partial: true, unpacked: true, other_bases: &[11], all_depth_max: true });
   let seq_universe3 = if quick { vec![] } else { universe(&UniverseSpec { name: "seq3", dmax: 3, chain: Chain::Last, partial: false, unpacked: true, other_bases: &[], all_depth_max: true }) };
@@ -298,6 +303,50 @@ pub fn run(ctx: &Ctx) -> i32 {
           }
         }
       }
+      Job::Bulk(d, salt) => {
+        // deterministic multiset: clusters around pseudo-random anchors, two long aligned runs, repeats
+        let nh = n_hash(*d);
+        let mut cells: Vec<u64> = vec![];
+        let mut x: u64 = 0x9E37_79B9_7F4A_7C15u64.wrapping_mul(*salt);
+        let mut next = || {
+          x ^= x << 13;
+          x ^= x >> 7;
+          x ^= x << 17;
+          x
+        };
+        for _ in 0..60 {
+          let anchor = next() % nh;
+          let len = 1 + next() % 90;
+          for k in 0..len {
+            if anchor + k < nh {
+              cells.push(anchor + k);
+            }
+          }
+        }
+        let a1 = (next() % (nh / 4096)) * 4096;
+        cells.extend(a1..(a1 + 4096).min(nh)); // a whole coarse cell
+        let a2 = (next() % (nh / 1024)) * 1024 + 3;
+        cells.extend(a2..(a2 + 1500).min(nh)); // an unaligned long run
+        for k in 0..400 {
+          let idx = (next() % cells.len() as u64) as usize;
+          let c = cells[idx];
+          cells.push(c); // duplicates
+          let _ = k;
+        }
+        let mut asc = cells.clone();
+        asc.sort();
+        let desc: Vec<u64> = asc.iter().rev().cloned().collect();
+        for seq in [&cells, &asc, &desc] {
+          for &cap in &[7usize, 64, 1000, 4096, 1_000_000] {
+            for full in [true, false] {
+              part.stratum("bulk-pushes", 1, 1);
+              if let Some(v) = check_history(*d, full, cap, seq, &mut part) {
+                part.viol(v);
+              }
+            }
+          }
+        }
+      }
       Job::Seq(lo, hi) => {
         for bm in &all_seq[*lo..*hi] {
           part.stratum("pack-sequences", 1, 1);
@@ -322,6 +371,7 @@ pub fn run(ctx: &Ctx) -> i32 {
     total,
     json!({"push_histories": format!("all sequences of length <= {} over {} cells of depth {} x capacities {:?} x both flags", max_len, na, hist_depth, caps),
       "runs": format!("consecutive runs of length 1..{} from 13 aligned/unaligned starts at depths {:?}, 6 push orders (asc, desc, interleaved, duplicated, duplicated+repeat, gap), 12 capacities, both flags", if quick { 70 } else { 300 }, run_depths),
+      "bulk": "per depth (6, 9 quick; + 12, 18, 29 thorough) a deterministic multiset of ~9000 pushes (60 clusters, a whole aligned coarse cell of 4096 cells, an unaligned run of 1500, 400 repeats) in 3 orders x 5 capacities x 2 flags",
       "small": "all subsets of the depth-0 cells, of the depth-1... (12 cells) and of 11 cells of depth 29, both orders; all rotations of the 48 depth-1 cells",
       "sequences": format!("{} valid entry sequences (universe depth 2 chain-first with partial flags and unpacked shapes{}) x pack and every lower depth", all_seq.len(), if quick { "" } else { ", depth 3 chain-last" })}),
     "every push history / run / subset / entry sequence listed in bounds",
